@@ -183,6 +183,26 @@ func runC12World(w *World, tier string, crashAt []int, out *c12Out) (bool, inter
 			if round != "" {
 				rounds = append(rounds, round)
 			}
+			// the operator forgets the replay at first: the machine is reopened, the file that was
+			// in the works is fed (the machine, which has no round in memory, refuses it), and only
+			// then the log is replayed. A refused file must leave nothing behind.
+			var lastOp types.Operation
+			if len(out.fed[i]) > 0 {
+				_ = json.Unmarshal(out.fed[i][len(out.fed[i])-1], &lastOp)
+			}
+			// (only for steps behind the commits step: a commits file meets no round in
+			// memory either way and is simply carried out, which is not a refusal)
+			if len(rounds) > 0 && stepRank[string(lastOp.Type)] >= 2 && w.Tape.Bool(1, 3, "fedBeforeReplay") {
+				if err := a.Reopen(); err == nil {
+					last := out.fed[i][len(out.fed[i])-1]
+					if _, _, perr := a.ProcessFile(last); perr == nil {
+						w.Stats.Probe("file-fed-before-replay-was-answered")
+					} else {
+						w.Stats.Fault("operation-file-fed-before-the-replay")
+					}
+					a.Restarts-- // Restart below counts this restart
+				}
+			}
 			if err := a.Restart(rounds); err != nil {
 				// "operation log not found" for a round the machine never logged
 				// anything for is the product's answer to replaying too early
